@@ -35,9 +35,8 @@ func init() {
 			s, sep := a[0].T, a[1].T
 			slen := App("str.len", SInt, s)
 			seplen := App("str.len", SInt, sep)
-			u.qctr++
-			q := "q" + itoa(u.qctr) + "_j"
-			noLater := Term{"(forall ((" + q + " Int)) (=> (and (< " + r.S + " " + q + ") (<= " + q + " (- " + slen.S + " " + seplen.S + "))) (not (= (str.substr " + s.S + " " + q + " " + seplen.S + ") " + sep.S + "))))", SBool}
+			rest := App("str.substr", SString, s, App("+", SInt, r, IntLit(1)), App("-", SInt, App("-", SInt, slen, r), IntLit(1)))
+			noLater := Implies(App(">=", SBool, r, IntLit(0)), Not(App("str.contains", SBool, rest, sep)))
 			u.assume(st, And(
 				App(">=", SBool, r, IntLit(-1)),
 				App("<=", SBool, r, App("-", SInt, slen, seplen)),
